@@ -2,8 +2,8 @@
 # tools/mut.sh <prop> <file under cutplace/> <sed expression> [extra check args]  -- try a one-line mutant on a scratch copy (development aid)
 P=$1; F=$2; E=$3; shift 3
 D=$(mktemp -d /tmp/mut.XXXXXX)
-cp -r /repo/cutplace "$D/" && rm -rf "$D/cutplace/__pycache__"
+SRC=${MUT_SRC:-/repo}; cp -r $SRC/cutplace "$D/" && rm -rf "$D/cutplace/__pycache__"
 sed -i "$E" "$D/cutplace/$F"
-diff <(cd /repo && cat cutplace/$F) "$D/cutplace/$F" | head -8
+diff <(cd $SRC && cat cutplace/$F) "$D/cutplace/$F" | head -8
 PYVC_REPO=$D /verif/check $P --no-evidence "$@" | grep -v "^  \(expected\|failing\)" | tail -12
 rm -rf "$D"
